@@ -38,6 +38,9 @@ def main():
         if not os.path.exists(p):
             continue
         pid, x = d.split("-")
+        mp = os.path.join(VERIF, "seeded", d, "meta.json")
+        if os.path.exists(mp) and json.load(open(mp)).get("obsolete"):
+            continue  # superseded by a later repair of /repo (see its meta.json)
         if ids and pid not in ids:
             continue
         if variants and x not in variants:
